@@ -32,9 +32,11 @@ matrices.  This avoids the O(N²) edge-creation overhead of the legacy
 
 import numpy as np
 from typing import Optional, Dict, Union
+from warnings import warn
 
 from pyrates.frontend.template.node import NodeTemplate
 from pyrates.frontend.template.edge import EdgeTemplate
+from pyrates.backend import PyRatesWarning
 
 
 class PopulationTemplate:
@@ -62,7 +64,7 @@ class PopulationTemplate:
         self.n = n
         self.params = params or {}
 
-    def apply(self, label: str = None) -> tuple:
+    def apply(self, label: str = None, values: dict = None) -> tuple:
         """Instantiate a ``VectorizedNodeIR`` for this population of size *n*.
 
         Returns
@@ -78,6 +80,11 @@ class PopulationTemplate:
         # rather than extending a cached one — we will resize it below.
         vec_node, label_map, _ = self.node.apply(values={}, label=label, vectorize=False)
 
+        # population parameters, overridden by the values passed for this translation (keys: 'op/var')
+        params = dict(self.params)
+        params.update(values or {})
+        applied = set()
+
         # Expand all vectorizable variables from length-1 lists to length-n lists.
         for op_key in vec_node.op_graph.operators:
             op_vars = vec_node.op_graph.nodes[op_key]['variables']
@@ -90,8 +97,9 @@ class PopulationTemplate:
                 base_val = raw[0] if isinstance(raw, list) and raw else raw
 
                 param_key = f"{op_key}/{var_key}"
-                if param_key in self.params:
-                    pval = self.params[param_key]
+                if param_key in params:
+                    applied.add(param_key)
+                    pval = params[param_key]
                     if hasattr(pval, '__len__') and len(pval) == self.n:
                         new_val = list(pval)
                     else:
@@ -103,6 +111,12 @@ class PopulationTemplate:
                 var_data['shape'] = (len(new_val),)
 
         vec_node.length = self.n
+
+        # a value that addresses no variable of the population is reported, not silently dropped
+        for param_key in params:
+            if param_key not in applied:
+                warn(PyRatesWarning(f'The value passed for {param_key} of population {label} was not applied: the '
+                                    f'node template has no such variable.'))
 
         # Build var_ranges: each variable spans indices [0, n).
         var_ranges = {}
